@@ -3,11 +3,13 @@ use super::asmrun::*;
 use crate::util::*;
 
 pub fn run(ctx: &Ctx) -> Report {
-    let mut rep = Report::new("every error produced by assembling the C02 fault families (single faults at every placement on every base program, fault pairs, fence-post, offset-limit and block-layout programs, programs whose labels contain non-ASCII letters) and by every failing link of the C20 link family (all ordered pairs and triples, over the family assembled with debug symbols and over its members that keep a symbol table without them): span.first(), span.iter() and Error::span() are exercised under catch_unwind; for assembling errors every span must lie in the source on char boundaries and, for label errors, cover a spelling of an offending label. non-trivial = case that produced an error");
+    let mut rep = Report::new("every error produced by assembling the C02 fault families (single faults at every placement on every base program, fault pairs, fence-post, offset-limit and block-layout programs, programs whose labels contain non-ASCII letters; the single-fault family also rendered without a final newline) and by every failing link of the C20 link family (all ordered pairs and triples, over the family assembled with debug symbols and over its members that keep a symbol table without them): span.first(), span.iter() and Error::span() are exercised under catch_unwind; for assembling errors every span must lie in the source on char boundaries and, for label errors, cover a spelling of an offending label. non-trivial = case that produced an error");
     let plain = vec![(0u64, DEFAULT_SECONDARY)];
     let two = vec![(0u64, DEFAULT_SECONDARY), (3887u64, 37u64)];
     let plans = vec![
         Plan { fam: "F1", styles: two.clone(), debug: vec![false, true], stride: 1 },
+        // the same single faults in texts without a final newline (and with a leading blank line / indentation): spans at the very end of the source
+        Plan { fam: "F1", styles: vec![(0u64, 1 + 40), (8 * 324, 1 + 20 + 40 + 80)], debug: vec![false, true], stride: 1 },
         Plan { fam: "F2", styles: plain.clone(), debug: vec![true], stride: ctx.pick(37, 2) },
         Plan { fam: "FENCE", styles: two.clone(), debug: vec![true], stride: 1 },
         Plan { fam: "LIM", styles: two.clone(), debug: vec![true], stride: 1 },
